@@ -66,6 +66,14 @@ func genScenario(r *hx.Rand, i int) interface{} {
 		in.Servers = []SrvIn{{Kind: k, Work: []*int{genEnd(r, wait, 0)}, Dial: r.Range(1, 2)}}
 		return in
 	}
+	if j := i - 2*len(kinds) - 3; j >= 0 && j < 2 { // the route of a dynamic listener disappears 50 ms before shutdown
+		other := SrvIn{Kind: "http", Work: []*int{}}
+		if j == 1 {
+			other = SrvIn{Kind: "tcp", Work: []*int{nil, genEnd(r, wait, 0)}}
+		}
+		in.Servers = []SrvIn{{Kind: "tcp", Work: []*int{nil}, Removed: true}, other}
+		return in
+	}
 	n := r.Range(1, 4)
 	for j := 0; j < n; j++ {
 		s := SrvIn{Kind: r.Pick(kinds)}
@@ -75,6 +83,12 @@ func genScenario(r *hx.Rand, i int) interface{} {
 		}
 		if (s.Kind == "tcp" || s.Kind == "sni" || s.Kind == "inetaf") && r.Chance(1, 4) {
 			s.Dial = r.Range(1, 2)
+		}
+		if s.Kind == "tcp" && s.Dial == 0 && r.Chance(1, 5) {
+			s.Removed = true
+			for k := range s.Work {
+				s.Work[k] = nil
+			}
 		}
 		in.Servers = append(in.Servers, s)
 	}
